@@ -50,6 +50,24 @@ M = [
     ('m18a', 'C18', 'concepts/contexts.py',
      "        for it in intent.powerset():\n            if it.prime() == extent:",
      "        for it in intent.powerset():\n            if it.prime() == extent and (it.count() != 2 or it == intent):"),
+    ('m13a', 'C13', 'concepts/definitions.py',
+     "        self._objects.remove(obj)\n        self._pairs.difference_update((obj, p) for p in self._properties)",
+     "        self._objects.remove(obj)"),
+    ('m13b', 'C13', 'concepts/tools.py',
+     "        if item in self._seen:\n            self._seen.remove(item)\n            self._items.remove(item)",
+     "        if item in self._seen:\n            self._items.remove(item)"),
+    ('m13c', 'C13', 'concepts/definitions.py',
+     "        if not ignore_conflicts:\n            ensure_compatible(self, other)\n        self._objects |= other._objects",
+     "        self._objects |= other._objects\n        if not ignore_conflicts:\n            ensure_compatible(self, other)"),
+    ('m14a', 'C14', 'concepts/definitions.py',
+     "        return self._fromargs(self._properties.copy(), self._objects.copy(),\n                              {(p, o) for (o, p) in self._pairs})",
+     "        return self._fromargs(self._properties.copy(), self._objects,\n                              {(p, o) for (o, p) in self._pairs})"),
+    ('m14b', 'C14', 'concepts/definitions.py',
+     "            obj = self._objects.copy()\n            prop = self._properties.copy()\n            if objects is not None:",
+     "            obj = self._objects.copy()\n            prop = self._properties if properties is None else self._properties.copy()\n            if objects is not None:"),
+    ('m14c', 'C14', 'concepts/contexts.py',
+     "        return (self.objects == other.objects\n                and self.properties == other.properties\n                and self.bools == other.bools)",
+     "        return (set(self.objects) == set(other.objects)\n                and self.properties == other.properties\n                and self.bools == other.bools)"),
     ('m20a', 'C20', 'concepts/visualize.py',
      "        if concept.properties:\n            dot.edge(name, name,\n                     taillabel=make_property_label(concept.properties),",
      "        if concept.properties and concept.lower_neighbors:\n            dot.edge(name, name,\n                     taillabel=make_property_label(concept.properties),"),
